@@ -34,6 +34,63 @@ def _load_capacity():
 
 
 BASE_CAPACITY = _load_capacity()
+
+
+def expected_autoprobe(cap):
+    """What handshake_autoprobe_fragsize()'s documented binary search (768 +- 384, 192, .. while the step is >= 8) settles on when
+    exactly the probe sizes up to `cap` come back intact."""
+    proposed, rng_, mx = 768, 768, 0
+    while rng_ > 0 and (rng_ >= 8 or mx < 300):
+        if proposed <= cap:
+            mx = proposed
+        rng_ >>= 1
+        if mx == proposed:
+            proposed += rng_
+        else:
+            proposed -= rng_
+    return mx - 2
+
+
+def scn_autoprobe(params):
+    """Engine A: the real client's own fragment-size probe against the real server on a direct, lossless path.  Every probe size
+    that fits the answer format comes back intact (that is what the driver establishes, with its own buffers), so the search
+    must end where the committed capacity table says it ends - with the buffers the client itself uses."""
+    from simnet import scen
+    from simnet.scen import US
+    out = {"violations": [], "nontrivial": [], "stats": {"autoprobe_runs": 1}, "evaluations": 1, "sets": {}}
+    sim = scen.Sim("c09a-%d" % params["idx"], params["seed"])
+    try:
+        srv = sim.server()
+        if not srv.alive():
+            out["inconclusive"] = "server-died-at-start"
+            return out
+        opts = ["-r", "-T", params["qtype"]] + (["-O", params["codec_name"]] if params["codec_name"] else []) + (["-L", "0"] if params["idx"] % 3 == 0 else [])
+        c = sim.client("cli0", "10.53.1.1", scen.SERVER_IP, opts)
+        sim.run_until(lambda: sim.client_in_tunnel(c) or not c.alive(), 200 * US)
+        h = sim.health(c)
+        if not sim.client_in_tunnel(c):
+            if h.startswith("sanitizer") or h.startswith("signal") or h == "stalled":
+                out["inconclusive"] = "client-" + h.split(":")[0]
+            else:
+                out["violations"].append(("C09:autoprobe:%s:%s:handshake-failed" % (params["qtype"], params["codec"]),
+                                          "the client (%s) did not complete its handshake on a direct lossless path (%s)" % (" ".join(opts), h),
+                                          {"seed": params["seed"], "stderr": sim.k.stderr_text(c, 1200)}))
+            return out
+        got = None
+        for u in srv.snapshot:
+            if u["active"] and u["authenticated"]:
+                got = u["fragsize"]
+        want = expected_autoprobe(params["cap"])
+        out["stats"]["autoprobe_results_compared"] = 1
+        if got != want:
+            out["violations"].append(("C09:autoprobe:%s:%s:settled-below-what-is-delivered-exactly" % (params["qtype"], params["codec"]),
+                                      "the client (%s) settled on fragment size %r; every probe size up to %d is delivered exactly in that format, so its search ends at %d"
+                                      % (" ".join(opts), got, params["cap"], want), {"seed": params["seed"], "stderr": sim.k.stderr_text(c, 1500)}))
+        else:
+            out["nontrivial"].append("autoprobe %s %s -> %d" % (params["qtype"], params["codec"], want))
+        return out
+    finally:
+        sim.close()
 # iodine.o / iodined.o are NOT linked: their text is compiled through the two #include drivers
 OBJS = ["dns", "read", "encoding", "base32", "base64", "base64u", "base128", "common", "login", "md5",
         "tun", "user", "fw_query"]
@@ -185,6 +242,36 @@ def run(ctx):
                         "sanitizer report while answering/decoding: %s; smallest case in flight: %s" % (key, lst[0][0]),
                         {"driver_output": lst[0][0], "smallest_case_per_pair_in_this_run": per_pair,
                          "reports": len(lst), "report": lst[0][1]})
+
+    # ---- the client's own probe, with its own buffers (Engine A) -------------------------------------
+    if only_pair < 0 and not ctx.replay:
+        from vflib import simrun
+        names = {"T": "base32", "S": "base64", "U": "base64u", "V": "base128", "R": "raw"}
+        alist = []
+        for qt in QTYPES:
+            for cd in CODECS:
+                if qt in ("NULL", "PRIVATE") and cd != "T":
+                    continue            # (opaque record types ignore the codec)
+                if cd == "R" and qt != "TXT":
+                    continue            # (Raw exists for TXT only; elsewhere the client falls back)
+                cap = BASE_CAPACITY.get("%s %s short buf4096" % (qt, cd))
+                if cap is None:
+                    continue
+                alist.append({"idx": len(alist), "seed": ctx.seed * 100000 + 90000 + len(alist), "qtype": qt, "codec": cd,
+                              "codec_name": None if qt in ("NULL", "PRIVATE") else names[cd], "cap": cap})
+        with core.Build() as b2:
+            ares = core.Result()
+            simrun.run_scenarios(ares, b2, scn_autoprobe, alist, jobs=ctx.jobs)
+        res.violations += ares.violations
+        res.harness_errors += ares.harness_errors
+        res.evaluations += ares.evaluations
+        res.inconclusive += ares.inconclusive
+        for kk, vv in ares.inconclusive_why.items():
+            res.inconclusive_why[kk] = res.inconclusive_why.get(kk, 0) + vv
+        for sig in ares.nontrivial:
+            res.nt(sig)
+        res.extra["engine_a_autoprobe_runs"] = len(alist)
+        res.extra["engine_a_autoprobe_results_compared"] = ares.extra.get("autoprobe_results_compared", 0)
 
     # ---- rules over all lengths of a group ---------------------------------------------------------
     expected = len(ls)
